@@ -41,6 +41,8 @@ MODS = {
     'flipL': {'hard': True, 'flip': True, 'rectangles': [[2.0, 1.5, 2.0, 1.0], [1.5, 2.5, 1.0, 1.0]]},
     # a soft module whose initial square covers most of the fixed rectangle of die d44f
     'softC': {'area': 3.0, 'center': [1.0, 3.0]},
+    # a second soft module that starts exactly where softA starts (their initial squares coincide)
+    'softA2': {'area': 4.0, 'center': [1.0, 1.0]},
     # flippable modules whose rectangles are (almost) aligned in one axis: the offset in that axis is below the solver
     # tolerance, so the solution may come back 'mirrored' in it and the mirror branches of the extraction run
     'flipIy': {'hard': True, 'flip': True, 'rectangles': [[2.0, 1.5, 2.0, 1.0], [3.5, 1.5000001, 1.0, 0.9]]},
@@ -48,7 +50,8 @@ MODS = {
 }
 NETLISTS = [('softA', 'softB'), ('softA', 'hard1'), ('softA', 'hardL'), ('softB', 'flipL'), ('softA', 'softB', 'hard1'),
             ('softA', 'softB', 'hardL'), ('softA', 'softB', 'flipL'), ('softA', 'hard1', 'hardL'), ('softB', 'hard1', 'flipL'),
-            ('softC', 'softB'), ('softC', 'hard1'), ('softA', 'flipIy'), ('softB', 'flipIx'), ('softA', 'softB', 'flipIy')]
+            ('softC', 'softB'), ('softC', 'hard1'), ('softA', 'flipIy'), ('softB', 'flipIx'), ('softA', 'softB', 'flipIy'),
+            ('softA2', 'softA', 'softB')]
 PRES = [['split', 2.0, 4], ['split', 2.0, 16], ['grid', 2, 2], ['grid', 4, 4], ['split', 1.5, 9], ['grid', 2, 4], ['grid', 3, 2]]
 ALPHAS = [0.1, 0.5]
 THRS = [0.7, 0.95]
@@ -77,6 +80,10 @@ def instances(tier):
                 full.append(dict(die=d, netlist=nl, pre=PRES[pre], alpha=a, thr=t, max_iter=it, hyper=hyper, collide=True))
     # threshold exactly 1 (the only value at which the cell of a fixed module, ratio 1.0, does not block a split) with three
     # and four refine/optimise rounds
+    # module names of 88..99 characters (valid identifiers: the optimiser derives the names of its solver variables from them)
+    for ln in range(88, 100):
+        for pre in (2, 0):
+            full.append(dict(die='d44', netlist=14, pre=PRES[pre], alpha=0.5, thr=0.95, max_iter=1, hyper=False, longname=ln))
     for d in ('d44f', 'd44g'):
         for nl in (0, 2, 9):
             for pre in (0, 4):
@@ -95,8 +102,11 @@ def build(case):
         node = copy.deepcopy(MODS[k])
         if case['die'] == 'd64' and 'center' in node:
             node['center'][0] *= 1.5
-        mods[f'M{i}_{k}'] = node
-        names.append(f'M{i}_{k}')
+        nm = f'M{i}_{k}'
+        if case.get('longname') and i == 0:
+            nm = (nm + '_' + 'L' * 200)[:case['longname']]
+        mods[nm] = node
+        names.append(nm)
     if d['fixed']:
         fname = 'F'
         if case.get('collide'):
